@@ -11,8 +11,11 @@ CASE_TIMEOUT = 1
 RULE = ('as C10\'s sibling C04 (blocks of disable / dispatches / enable over scripted handlers) plus '
         'Drop actions at top level and inside callbacks, i.e. between two callbacks of one '
         'dispatch or release: the only strong reference to a handler is a harness variable, a '
-        'component slot of a separate World, or a component slot of the World under test '
-        '(40 % of the cases use a World as the dispatcher); after each drop a weak reference '
+        'component slot of a separate World, or - in the half of the cases whose dispatcher is a '
+        'real desper.World (self-registration and on_single_dispatch relay in its tables) - a '
+        'component slot of that World, dropped by world.remove_component, delete_entity(e, '
+        'immediate=True) or delete_entity(e) followed by process(), all issued from top level '
+        'and from inside callbacks; after each drop a weak reference '
         'tells whether the object really died; receivers are logged by identity, None as -1; '
         'worker processes run under different PYTHONHASHSEEDs and the set order actually taken '
         'is the order of the ECall entries; non-trivial = a handler freed inside a callback and '
